@@ -87,7 +87,13 @@ func (r region) String() string {
 // on the paths that accept the configuration with the row's guards true.
 func (c *Ctx) acceptRegion(fn *ssa.Function, row cfgRow) (region, int, string) {
 	p := c.P
-	sp := &Spec{P: p, Cond: p.anyCondLabel(), Expand: func(*ssa.Function, ssa.CallInstruction) bool { return false }}
+	sp := &Spec{P: p, Cond: p.anyCondLabel(), Expand: func(callee *ssa.Function, site ssa.CallInstruction) bool {
+		pk := fnPkg(callee)
+		if pk == nil || !strings.HasSuffix(pk.Pkg.Path(), "/internal/config") {
+			return false
+		}
+		return callee.Signature.Recv() == nil // helpers such as validatePort(label, port); never another validator method
+	}}
 	ts := sp.Walk(fn)
 	c.Count("paths_enumerated", len(ts))
 	var parts []region // union of the per-path regions
@@ -173,6 +179,60 @@ func (c *Ctx) acceptRegion(fn *ssa.Function, row cfgRow) (region, int, string) {
 	return out, n, ""
 }
 
+// unexaminedErrors lists the calls labelled with the prefix on the path whose error result is neither
+// compared with nil by a branch on the path nor returned.
+func unexaminedErrors(t *Trace, prefix string) []string {
+	examined := map[ssa.Value]bool{}
+	for _, it := range t.Items {
+		if ifi, ok := it.Instr.(*ssa.If); ok {
+			if b, ok := ifi.Cond.(*ssa.BinOp); ok {
+				examined[stripConv(b.X)] = true
+				examined[stripConv(b.Y)] = true
+			}
+		}
+	}
+	if r, ok := t.RetInstr.(*ssa.Return); ok {
+		for _, v := range r.Results {
+			examined[stripConv(v)] = true
+		}
+	}
+	var out []string
+	for _, it := range t.Items {
+		if !strings.HasPrefix(it.Label, prefix) {
+			continue
+		}
+		call, ok := it.Instr.(*ssa.Call)
+		if !ok {
+			continue
+		}
+		var errv []ssa.Value
+		if isErrorType(call.Type()) {
+			errv = append(errv, call)
+		} else if call.Referrers() != nil {
+			for _, r := range *call.Referrers() {
+				if ex, ok := r.(*ssa.Extract); ok && isErrorType(ex.Type()) {
+					errv = append(errv, ex)
+				}
+			}
+		}
+		ok = false
+		for _, v := range errv {
+			if examined[v] {
+				ok = true
+			}
+		}
+		if !ok {
+			out = append(out, strings.TrimPrefix(it.Label, prefix))
+		}
+	}
+	return out
+}
+
+func isErrorType(t types.Type) bool {
+	n, ok := t.(*types.Named)
+	return ok && n.Obj().Pkg() == nil && n.Obj().Name() == "error"
+}
+
 func checkC18(c *Ctx) {
 	p := c.P
 	c.Clause("Validate calls every validate* method and returns its error; LoadConfig returns Validate's error")
@@ -237,11 +297,23 @@ func checkC18(c *Ctx) {
 						return "configuration accepted without running " + v
 					}
 				}
+				if u := unexaminedErrors(t, "call:"); len(u) > 0 {
+					return "configuration accepted without examining the result of " + strings.Join(u, ", ")
+				}
 			}
 			return ""
 		})
 	lc := p.Fn("internal/config", "", "LoadConfig")
-	c.traceRule("validation-complete", "config.LoadConfig", lc, &Spec{Cond: p.condMentions("Validate(", "Unmarshal(", "ReadFile("), Expand: func(*ssa.Function, ssa.CallInstruction) bool { return false }},
+	c.traceRule("validation-complete", "config.LoadConfig", lc, &Spec{Cond: p.condMentions("Validate(", "Unmarshal(", "ReadFile("), Expand: func(*ssa.Function, ssa.CallInstruction) bool { return false },
+		Event: func(in ssa.Instruction, fr *Frame) string {
+			if ci, ok := in.(*ssa.Call); ok {
+				switch n := CalleeName(ci); {
+				case strings.HasSuffix(n, "config.Config).Validate"), strings.HasSuffix(n, "yaml.Unmarshal"), n == "os.ReadFile":
+					return "step:" + n
+				}
+			}
+			return ""
+		}},
 		"read, parse and validation errors all make LoadConfig fail",
 		func(t *Trace) string {
 			failed := false
@@ -255,6 +327,11 @@ func checkC18(c *Ctx) {
 			}
 			if len(t.Ret) == 2 && !failed && t.Ret[1].K != ANil {
 				return "loading fails without any step having failed"
+			}
+			if !failed {
+				if u := unexaminedErrors(t, "step:"); len(u) > 0 {
+					return "configuration returned without examining the error of " + strings.Join(u, ", ")
+				}
 			}
 			if !failed && !t.Has("if call:(*github.com/0xReLogic/Helios/internal/config.Config).Validate(&var:config)") && false {
 				return "configuration returned without validation"
@@ -299,6 +376,63 @@ func checkC18(c *Ctx) {
 			if row.YAML != "" {
 				regions[row.YAML] = got
 			}
+		}
+	}
+
+	// 2b. a constraint of a switchable feature rejects only while the feature is enabled
+	byValidator := map[string][]cfgRow{}
+	for _, row := range tCfg {
+		byValidator[row.Validator] = append(byValidator[row.Validator], row)
+	}
+	for _, vn := range validators {
+		rows := byValidator[vn]
+		fn := p.Fn("internal/config", "Config", vn)
+		guarded := 0
+		for _, r := range rows {
+			if r.Guard != "" {
+				guarded++
+			}
+		}
+		if fn == nil || guarded == 0 {
+			continue
+		}
+		sp := &Spec{P: p, Cond: p.anyCondLabel(), Expand: func(callee *ssa.Function, site ssa.CallInstruction) bool {
+			pk := fnPkg(callee)
+			return pk != nil && strings.HasSuffix(pk.Pkg.Path(), "/internal/config") && callee.Signature.Recv() == nil
+		}}
+		var bad []string
+		nRej := 0
+		for _, t := range sp.Walk(fn) {
+			if len(t.Ret) != 1 || t.Ret[0].K == ANil {
+				continue
+			}
+			nRej++
+			// the deciding comparison is the last recognised one on the path
+			var last Rel
+			for _, it := range t.Items {
+				if r := c.condRel(it); r.OK && r.Pred == "" && strings.HasPrefix(r.X, cfgP) {
+					last = r
+				}
+			}
+			if !last.OK {
+				continue
+			}
+			for _, row := range rows {
+				if row.Guard == "" || (row.X != last.X && row.X != last.Y) || last.X == cfgP+row.Guard {
+					continue
+				}
+				g, _, ok := c.findRel(t, cfgP+row.Guard, "", 0, -1)
+				if !ok || g.Lo != 1 {
+					bad = append(bad, fmt.Sprintf("rejects on %s although %s is not established true on that path", strings.TrimPrefix(row.X, cfgP), row.Guard))
+				}
+			}
+		}
+		c.Count("paths_enumerated", nRej)
+		construct := "config.(*Config)." + vn + "/rejects-only-when-enabled"
+		if len(bad) > 0 {
+			c.Fail("constraint-table", construct, p.Pos(fn.Pos()), bad[0], uniqueStrings(bad)...)
+		} else {
+			c.Pass("constraint-table", construct, p.Pos(fn.Pos()), fmt.Sprintf("%d rejecting paths; each rejection on a guarded field has its feature enabled", nRej))
 		}
 	}
 
